@@ -31,6 +31,7 @@ class Prog:
         self.k = 0
         self.fwd = fwd
         self.templates = []
+        self.tdefaults = []       # per template: default attributes of the template group (overridden by same-named reuse attributes)
         self.shadow = False
         self.uses_fwd = False
 
@@ -79,6 +80,7 @@ class Prog:
                 tid = len(self.templates)
                 body = self.block(depth + 2, r.randint(1, 3))
                 self.templates.append(body)
+                self.tdefaults.append({nm: self.token() for nm in r.sample(NAMES, r.choice([0, 0, 1, 2]))})
                 attrs = {nm: self.value_expr() for nm in r.sample(NAMES, r.choice([0, 1, 2]))}
                 out.append(("reuse", tid, attrs))
                 if attrs:
@@ -116,6 +118,7 @@ class Prog:
             else:
                 tid = len(self.templates)
                 self.templates.append(self.block_noassign(depth + 2, r.randint(1, 2), need_fwd=False))
+                self.tdefaults.append({nm: self.token() for nm in r.sample(NAMES, r.choice([0, 0, 1, 2]))})
                 out.append(("reuse", tid, {nm: self.value_expr() for nm in r.sample(NAMES, r.choice([1, 2]))}))
                 self.shadow = True
         if not placed:
@@ -171,7 +174,7 @@ class Prog:
         later = '  <rect id="later" xy="3 4" wh="2"/>'
         specs = ["  <specs>"]
         for i, body in enumerate(self.templates):
-            specs.append('    <g id="t%d">' % i)
+            specs.append('    <g id="t%d"%s>' % (i, "".join(' %s="%s"' % kv for kv in self.tdefaults[i].items())))
             specs += self.render(body, "      ")
             specs.append("    </g>")
         specs.append("  </specs>")
@@ -221,6 +224,9 @@ class Prog:
             v = lookup(e[1])
             if v is None or not re.fullmatch(r"-?\d+", v):
                 raise ValueError("inc of non-number")
+            if abs(int(v)) >= 1 << 23:
+                # beyond the integers svgdx's single-precision arithmetic represents exactly (C14's business): not generated
+                raise ValueError("inc of a number too large for exact f32 arithmetic")
             return str(int(v) + 1)
 
         def run(b):
@@ -251,7 +257,8 @@ class Prog:
                 elif t == "reuse":
                     vals = {k: ev(v) for k, v in node[2].items()}
                     scopes.append(vals)      # the reuse element's attributes
-                    scopes.append({})        # the instantiated <g> itself
+                    # the instantiated <g> itself: the template's own attributes, replaced by same-named reuse attributes
+                    scopes.append({k: vals.get(k, d) for k, d in self.tdefaults[node[1]].items()})
                     run(self.templates[node[1]])
                     scopes.pop()
                     scopes.pop()
